@@ -23,9 +23,17 @@ func pypiContains(constraints []string, version string) (bool, error) {
 	// Check if version is a prerelease (has prerelease or dev components)
 	isPrerelease := isPyPIPrerelease(v)
 
-	// If it's a prerelease, check if any constraint explicitly includes prereleases
-	if isPrerelease && !constraintsIncludePrerelease(constraints) {
-		return false, nil
+	// If it's a prerelease, check if any constraint explicitly includes prereleases.
+	// The check is made on the normalized constraints so that spaces inside a
+	// constraint (">=1.0 rc1") do not hide its prerelease marker.
+	if isPrerelease {
+		normalized, err := normalizeConstraints(e, constraints)
+		if err != nil {
+			return false, fmt.Errorf("failed to normalize constraints: %w", err)
+		}
+		if !constraintsIncludePrerelease(normalized) {
+			return false, nil
+		}
 	}
 
 	return contains(e, constraints, version)
